@@ -18,3 +18,21 @@ for nm, anchor, mv in (('copy_ctor', 'state_machine_base ( state_machine_base co
             dict(name='INITLIST-delegating', pat='state_machine_base = ;', rep='default_construct ( self ) ;', min=0, max=1),
             dict(name='defaulted-copy-assign', pat='self = rhs ;', rep='assign_from ( self , rhs , 0 ) ;', min=0, max=1),
             dict(name='defaulted-move-assign', pat='self = move ( rhs ) ;', rep='assign_from ( self , rhs , 1 ) ;', min=0, max=1)]), replay=['copy']))
+CTY = 'backmp11/common_types.hpp'
+EO_MEMBERS = [(CTY, 'process_fn_t m_process_fn { } ;'), (CTY, 'bool m_marked_for_deletion { } ;')]
+def special(cls, anchor, members):
+    # user-provided special member if the class declares one, else the compiler-generated member-wise operation
+    return Part(CTY, ['class ' + cls], anchor, optional=True, init_list=True, default_body='* self = * other ;',
+                xform=back_xform([], refparams=('other', 'rhs'), members=members, enums=ENUMS, drop=DROP2, rewrites=[dict(name='REF-param-name', pat='rhs', rep='other', min=0)]))
+for nm, anchor in (('copy_ctor', 'event_occurrence ( const event_occurrence &'), ('move_ctor', 'event_occurrence ( event_occurrence &&'),
+                   ('copy_assign', 'operator = ( const event_occurrence &'), ('move_assign', 'operator = ( event_occurrence &&')):
+    ctor = nm.endswith('ctor')
+    UNITS.append(Unit('backmp11.event_occurrence.' + nm, ['C15', 'C20', 'C13'], 'backmp11', special('event_occurrence', anchor, ['m_process_fn', 'm_marked_for_deletion']),
+        'void eo_copy(eo_t* self, const eo_t* other)', 'copy_mp11.spec.h', defines=['UNIT_EO=1'],
+        compose=('EO_DEFAULT_MEMBER_INIT(self);\n' if ctor else '') + '@0', must_contain=EO_MEMBERS, replay=['copy']))
+for nm, anchor in (('copy_ctor', 'deferred_event ( const deferred_event &'), ('move_ctor', 'deferred_event ( deferred_event &&'),
+                   ('copy_assign', 'operator = ( const deferred_event &'), ('move_assign', 'operator = ( deferred_event &&')):
+    ctor = nm.endswith('ctor')
+    UNITS.append(Unit('backmp11.deferred_event.' + nm, ['C15', 'C20', 'C05', 'C13'], 'backmp11', special('deferred_event', anchor, ['m_seq_cnt', 'm_event']),
+        'void de_copy(de_t* self, const de_t* other)', 'copy_mp11.spec.h', defines=['UNIT_DE=1'],
+        compose=('EO_DEFAULT_MEMBER_INIT(self);\n' if ctor else '') + '@0', must_contain=EO_MEMBERS + [(CTY, 'uint16_t m_seq_cnt ;'), (CTY, 'Event m_event ;')], replay=['copy']))
